@@ -63,6 +63,9 @@ func (r Rename) String() string {
 	if strings.Contains(r.New, " now)") {
 		return fmt.Sprintf("%s %s is taken to be %s (same parameters in the same positions)", r.Kind, r.New, r.Old)
 	}
+	if r.Kind == "moved-field" {
+		return fmt.Sprintf("field %s is taken to be %s, moved into a struct introduced later (same type, same declaration order)", r.New, r.Old)
+	}
 	return fmt.Sprintf("%s %s is taken to be the renamed %s (same %s, same declaration order)", r.Kind, r.New, r.Old, map[string]string{"func": "signature", "field": "struct and type", "type": "underlying type"}[r.Kind])
 }
 
@@ -465,6 +468,7 @@ func detectRenames(pkgs []*packages.Package) (map[posKey]string, []Rename) {
 			}
 		}
 		// fields
+		paired := map[string]bool{}
 		haveF := map[string]bool{}
 		for _, f := range flds {
 			haveF[f.strct+"."+f.name] = true
@@ -512,6 +516,60 @@ func detectRenames(pkgs []*packages.Package) (map[posKey]string, []Rename) {
 			for i := range g.old {
 				byDecl[posKey{g.new[i].pos.Filename, g.new[i].pos.Offset}] = g.old[i].Name
 				out = append(out, Rename{"field", g.old[i].Struct + "." + g.old[i].Name, g.new[i].strct + "." + g.new[i].name})
+				paired[g.old[i].Struct+"."+g.old[i].Name] = true
+			}
+		}
+		// fields moved into a struct introduced later, held by value (or
+		// embedded) in the place they came from: c.readConn → c.rd.conn. A
+		// known field S.F of type T that is gone and has no renamed twin is
+		// taken to be the field of type T of a new struct type U, when S has
+		// a new field of type U; several of one type pair in declaration order.
+		knownT := map[string]bool{}
+		for _, k := range KnownTypes {
+			knownT[k.Name] = true
+		}
+		fieldsOf := map[string][]curField{}
+		for _, f := range flds {
+			fieldsOf[f.strct] = append(fieldsOf[f.strct], f)
+		}
+		for _, holder := range flds {
+			if knownF[holder.strct+"."+holder.name] {
+				continue
+			}
+			u := prefix + strings.TrimPrefix(holder.typ, "*")
+			if knownT[u] || len(fieldsOf[u]) == 0 || strings.HasPrefix(holder.typ, "*") {
+				continue
+			}
+			// vanished, unpaired known fields of the holder's struct, by type
+			byType := map[string][]KnownField{}
+			for _, k := range KnownFields {
+				if k.Struct != holder.strct || haveF[k.Struct+"."+k.Name] || paired[k.Struct+"."+k.Name] {
+					continue
+				}
+				byType[k.Type] = append(byType[k.Type], k)
+			}
+			newByType := map[string][]curField{}
+			for _, f := range fieldsOf[u] {
+				newByType[f.typ] = append(newByType[f.typ], f)
+			}
+			var types_ []string
+			for t := range byType {
+				types_ = append(types_, t)
+			}
+			sort.Strings(types_)
+			for _, t := range types_ {
+				olds, news := byType[t], newByType[t]
+				if len(news) == 0 || len(news) > len(olds) {
+					continue
+				}
+				sort.Slice(olds, func(i, j int) bool { return olds[i].Ord < olds[j].Ord })
+				if len(news) != len(olds) {
+					continue
+				}
+				for i := range news {
+					out = append(out, Rename{"moved-field", olds[i].Struct + "." + olds[i].Name, u + "." + news[i].name + " (held in " + holder.strct + "." + holder.name + ")"})
+					paired[olds[i].Struct+"."+olds[i].Name] = true
+				}
 			}
 		}
 	}
